@@ -12,6 +12,10 @@ import DriverOps.UserAgg
 import DriverOps.Cohorts
 import DriverOps.Graph
 import DriverOps.MultiBin
+import DriverOps.Dtype
+import DriverOps.XDims
+import DriverOps.C19
+import DriverOps.State
 
 open Flox DriverOps
 
@@ -25,7 +29,11 @@ def ops : List (String × (List (List String) → String)) :=
     ("reduceR", handleUserAgg),
     ("cohorts", handleCohorts), ("cohortspec", handleCohorts),
     ("graph", handleGraph),
-    ("bincode", handleMultiBin), ("ravel", handleMultiBin), ("factor", handleMultiBin), ("multi", handleMultiBin) ]
+    ("bincode", handleMultiBin), ("ravel", handleMultiBin), ("factor", handleMultiBin), ("multi", handleMultiBin),
+    ("dtype", handleDtype), ("dchunks", handleDtype),
+    ("xdims", handleXDims), ("xdims-spec", handleXDims), ("xskipna", handleXDims),
+    ("c19validate", handleC19Validate), ("c19judge", handleC19Judge),
+    ("history", handleState), ("names", handleState), ("merge", handleState) ]
 
 def handle (line : String) : String :=
   let secs := sections line
